@@ -97,6 +97,9 @@ class _Fn:
             if self.env == before:
                 break
 
+    def read(self, name: str) -> bool:
+        return any(isinstance(x, ast.Name) and x.id == name and isinstance(x.ctx, ast.Load) for x in ast.walk(self.fn))
+
     def _walk(self, fn: ast.AST):
         stack = list(ast.iter_child_nodes(fn))
         while stack:
@@ -198,7 +201,7 @@ class _Rewrite(ast.NodeTransformer):
 
     def visit_Assign(self, n: ast.Assign) -> Any:
         self.generic_visit(n)
-        if len(n.targets) != 1 or not isinstance(n.targets[0], ast.Tuple) or not _pure(n.value):
+        if len(n.targets) != 1 or not isinstance(n.targets[0], ast.Tuple):
             return n
         elts = n.targets[0].elts
         t = self.f.typeof(n.value)
@@ -206,12 +209,20 @@ class _Rewrite(ast.NodeTransformer):
             return n
         if t[0] == 0 and all(isinstance(e, ast.Name) for e in elts) and len(elts) == len(self.f.classes[t[1]]):
             out = []
+            src: ast.AST = n.value
+            if not _pure(n.value):
+                # the record is computed once (`a, b, ... = xs.pop(0)`): name it, then read the fields
+                tmp = f'_rec{self.n}'
+                out.append(ast.copy_location(ast.Assign(targets=[ast.Name(id=tmp, ctx=ast.Store())], value=n.value, lineno=n.lineno), n))
+                src = ast.Name(id=tmp, ctx=ast.Load())
             for e, fld in zip(elts, self.f.classes[t[1]]):
-                if e.id == '_':
+                if e.id == '_' or (e.id.startswith('_') and not self.f.read(e.id)):
                     continue
-                out.append(ast.copy_location(ast.Assign(targets=[e], value=ast.Attribute(value=n.value, attr=fld, ctx=ast.Load()), lineno=n.lineno), n))
+                out.append(ast.copy_location(ast.Assign(targets=[e], value=ast.Attribute(value=src, attr=fld, ctx=ast.Load()), lineno=n.lineno), n))
             self.n += 1
             return out or ast.copy_location(ast.Pass(), n)
+        if not _pure(n.value):
+            return n
         if t[0] >= 1 and len(elts) == 2 and isinstance(elts[0], ast.Name) and isinstance(elts[1], ast.Starred) and isinstance(elts[1].value, ast.Name):
             head, tail = elts[0], elts[1].value
             cp = ast.Assign(targets=[ast.Name(id=tail.id, ctx=ast.Store())],
